@@ -18,7 +18,9 @@
  *                  (host re-entry with the frames the failed run left behind)
  *       -> one line per case:
  *          CASE <idx> st=<ok|noload|noverify|imports|crash> res=<VmResult> tag=<main result tag> ival=<int result>
- *               steps=<n> fuelout=<0|1> maxframes=<n> maxstack=<n> inv=<first invariant violation or -> msg=<hex> out=<hex>
+ *               steps=<n> fuelout=<0|1> maxframes=<n> maxstack=<n> frames_left=<n> lastop=<opcode the last boundary was about to run>
+ *               grow=<opcode:new capacity,.. = instructions during which the operand stack was reallocated>
+ *               inv=<first invariant violation or -> msg=<hex> out=<hex>
  *               [re_res=.. re_inv=.. re_maxframes=..]
  *          crash: CASE <idx> st=crash signal=<n>|exit=<n> phase=<n> err=<hex of the head of the child's stderr>
  */
